@@ -522,7 +522,7 @@ pub fn run_property(
             "probes": agg.probes,
             "families": per_family,
             "components": {"real": extras.components_real, "stub": extras.components_stub},
-            "sut_panics": agg.sut_panics,
+            "sut_panics": capped_panics(&agg.sut_panics),
             "violations_of_other_properties_seen": agg.other_property_violations,
             "known_findings_matched": known_hits.iter().map(|(k,(n,_))| json!({"finding": k, "runs": n})).collect::<Vec<_>>(),
             "unlisted_violation_classes": n_classes,
@@ -569,6 +569,49 @@ pub fn run_property(
     } else {
         0
     }
+}
+
+/// Panic signatures for the evidence file: numbers are folded (`N`) so that one call site is one
+/// entry, and at most 40 entries are written (the rest as a count) - a mutant that panics with a
+/// different index in every run must not produce a multi-megabyte evidence file.
+fn capped_panics(m: &BTreeMap<String, u64>) -> serde_json::Value {
+    let mut folded: BTreeMap<String, u64> = BTreeMap::new();
+    for (k, v) in m {
+        // signature = "<message> @ <location>": fold the numbers of the message only
+        let (msg, loc) = match k.rsplit_once(" @ ") {
+            Some((m, l)) => (m, Some(l)),
+            None => (k.as_str(), None),
+        };
+        let mut f = String::with_capacity(k.len());
+        let mut in_num = false;
+        for c in msg.chars() {
+            if c.is_ascii_digit() {
+                if !in_num {
+                    f.push('N');
+                }
+                in_num = true;
+            } else {
+                in_num = false;
+                f.push(c);
+            }
+        }
+        if let Some(l) = loc {
+            f.push_str(" @ ");
+            f.push_str(l);
+        }
+        *folded.entry(f).or_insert(0) += *v;
+    }
+    let mut v: Vec<(String, u64)> = folded.into_iter().collect();
+    v.sort_by(|a, b| b.1.cmp(&a.1).then(a.0.cmp(&b.0)));
+    let rest: u64 = v.iter().skip(40).map(|x| x.1).sum();
+    let mut out = serde_json::Map::new();
+    for (k, n) in v.into_iter().take(40) {
+        out.insert(k, json!(n));
+    }
+    if rest > 0 {
+        out.insert("(further signatures)".into(), json!(rest));
+    }
+    serde_json::Value::Object(out)
 }
 
 /// Merge evidence written by other processes of the same check (another build profile, the
